@@ -135,7 +135,11 @@ def strip_coq_comments(s):
 
 def proof_obligations(ctx, vfile=None):
     """Re-checks Properties/<prop>.v with coqc and inspects Print Assumptions under every theorem."""
-    vfile = vfile or f'Properties/{ctx.prop}.v'
+    if vfile is None:
+        import glob
+        extra = sorted(glob.glob(f'{COQ}/Properties/{ctx.prop}_*.v'))
+        for e in extra: proof_obligations(ctx, 'Properties/' + os.path.basename(e))
+        vfile = f'Properties/{ctx.prop}.v'
     cmd = f'timeout 900 coqc -R . CC {vfile}'
     ctx.checker_cmds.append(f'cd {COQ} && make -j16 && {cmd}')
     with Lock('coq'):
